@@ -229,6 +229,7 @@ func c10Spaces(c *fw.Ctx) {
 	c10SpellingSpace(c)
 	c10AlterSpace(c)
 	c10PrecheckSpace(c)
+	c10KeyStructSpace(c)
 	c10FreshSpace(c)
 	c10ShortSpace(c)
 	c10AllKeysSpace(c)
